@@ -607,3 +607,79 @@ func TestC16Dispatch(t *testing.T) {
 	St.ClassN("procedure_numbers_checked", 52)
 	St.Sample(map[string]any{"kind": "dispatch table", "nfs_procedures": 22, "mount_procedures": 6, "unassigned_numbers_probed": 24}, true)
 }
+
+// A truncated request must be refused by the dispatch layer *before* the procedure runs: for a generated argument
+// value of every NFS procedure, every strict prefix of its encoding (word-aligned or not) goes through the
+// repository's dispatch table to a recording stub; the call must end in an error and the stub must not have been
+// reached.  The complete encoding must reach it.
+func TestC16Truncated(t *testing.T) {
+	argTypes := map[uint32]func() xdr.Xdrable{
+		1: func() xdr.Xdrable { return new(nt.GETATTR3args) }, 2: func() xdr.Xdrable { return new(nt.SETATTR3args) }, 3: func() xdr.Xdrable { return new(nt.LOOKUP3args) },
+		4: func() xdr.Xdrable { return new(nt.ACCESS3args) }, 5: func() xdr.Xdrable { return new(nt.READLINK3args) }, 6: func() xdr.Xdrable { return new(nt.READ3args) },
+		7: func() xdr.Xdrable { return new(nt.WRITE3args) }, 8: func() xdr.Xdrable { return new(nt.CREATE3args) }, 9: func() xdr.Xdrable { return new(nt.MKDIR3args) },
+		10: func() xdr.Xdrable { return new(nt.SYMLINK3args) }, 11: func() xdr.Xdrable { return new(nt.MKNOD3args) }, 12: func() xdr.Xdrable { return new(nt.REMOVE3args) },
+		13: func() xdr.Xdrable { return new(nt.RMDIR3args) }, 14: func() xdr.Xdrable { return new(nt.RENAME3args) }, 15: func() xdr.Xdrable { return new(nt.LINK3args) },
+		16: func() xdr.Xdrable { return new(nt.READDIR3args) }, 17: func() xdr.Xdrable { return new(nt.READDIRPLUS3args) }, 18: func() xdr.Xdrable { return new(nt.FSSTAT3args) },
+		19: func() xdr.Xdrable { return new(nt.FSINFO3args) }, 20: func() xdr.Xdrable { return new(nt.PATHCONF3args) }, 21: func() xdr.Xdrable { return new(nt.COMMIT3args) },
+	}
+	stub := &recStub{}
+	handlers := map[uint32]func(*xdr.XdrState) (xdr.Xdrable, error){}
+	for _, r := range nt.NFS_PROGRAM_NFS_V3_regs(stub) {
+		handlers[r.Proc] = r.Handler
+	}
+	mnt := map[uint32]func(*xdr.XdrState) (xdr.Xdrable, error){}
+	for _, r := range nt.MOUNT_PROGRAM_MOUNT_V3_regs(stub) {
+		mnt[r.Proc] = r.Handler
+	}
+	rapid.Check(t, func(t *rapid.T) {
+		proc := uint32(rapid.IntRange(1, 23).Draw(t, "proc"))
+		var v xdr.Xdrable
+		h := handlers[proc]
+		if proc >= 22 {
+			// MOUNT MNT (1) and UMNT (3) take a dirpath
+			p := new(nt.Dirpath3)
+			v, h = p, mnt[map[uint32]uint32{22: 1, 23: 3}[proc]]
+		} else {
+			v = argTypes[proc]()
+		}
+		genWire(t, reflect.ValueOf(v).Elem(), 0)
+		full, err := encWire(v)
+		if err != nil {
+			t.Skip("value does not encode (beyond a protocol bound)")
+		}
+		fail := func(format string, a ...any) {
+			failf(t, "C16", map[string]any{"procedure": proc, "encoding": fmt.Sprintf("%x", trimBytes(full, 200))}, format, a...)
+		}
+		stub.take()
+		if _, err := h(xdr.MakeReader(full)); err != nil || stub.take() == "" {
+			// values beyond a protocol bound (a name longer than the codec admits) may be refused: not this unit's subject
+			t.Skip("the complete message is not accepted")
+		}
+		var cuts []int
+		if len(full) <= 64 {
+			for k := 0; k < len(full); k++ {
+				cuts = append(cuts, k)
+			}
+		} else {
+			for k := 0; k < len(full); k += 4 {
+				cuts = append(cuts, k)
+			}
+			for i := 0; i < 8; i++ {
+				cuts = append(cuts, rapid.IntRange(0, len(full)-1).Draw(t, "cut"))
+			}
+		}
+		for _, k := range cuts {
+			_, err := h(xdr.MakeReader(append([]byte{}, full[:k]...)))
+			reached := stub.take()
+			if reached != "" {
+				fail("procedure %d: a request cut after %d of its %d bytes reached the handler of %s (the procedure ran on half-decoded arguments)", proc, k, len(full), reached)
+			}
+			if err == nil {
+				fail("procedure %d: a request cut after %d of its %d bytes was not refused", proc, k, len(full))
+			}
+			St.Eval(1)
+		}
+		St.NT(Hash("trunc", proc, len(full)))
+		St.Class("truncated_requests_offered_to_the_dispatch_table")
+	})
+}
